@@ -450,6 +450,64 @@ def main():
         ck.evaluations += 1
         if not d.generators_inverse_closed:
             ck.violation("C16/gap/puzzle-not-closed", f"GapPuzzles.puzzle({nm!r}) is not inverse-closed", {"case": {"source": nm}})
+    # The public entry points, in one process, over ALL shipped files (several directories ship files of the same name):
+    # what `load_puzzle_from_file(path)` returns must be what the reader returns for the text of THAT file, whatever was
+    # loaded before (two passes, the second in another order), and `puzzle(name)` must be the default file of that name.
+    def same_def(a, b):
+        return a.generators_permutations == b.generators_permutations and list(a.generator_names) == list(b.generator_names) and list(a.central_state) == list(b.central_state)
+
+    order2 = list(files)
+    rng.shuffle(order2)
+    for pass_no, order in enumerate((files, order2)):
+        for f in order:
+            if ck.enough():
+                break
+            try:
+                got = GapPuzzles.load_puzzle_from_file(f)
+                want_d = gp._parse_gap_file(open(f, encoding="utf-8").read())  # pylint: disable=protected-access
+            except Exception as ex:  # pylint: disable=broad-except
+                ck.violation("C16/gap/load-error", f"load_puzzle_from_file({f}) raised: {type(ex).__name__}: {ex}", {"case": {"source": f}})
+                continue
+            ck.evaluations += 1
+            ck.count("gap:load_puzzle_from_file")
+            if not same_def(got, want_d):
+                ck.violation("C16/gap/load-differs", f"load_puzzle_from_file({os.path.relpath(f, REPO)}) (pass {pass_no + 1}) is not the definition written in that file", {"case": {"source": f, "loaded_before": [os.path.relpath(x, REPO) for x in order[: order.index(f)]][-5:]}})
+    defaults_dir = os.path.join(REPO, "cayleypy", "puzzles", "gap_files", "defaults")
+    for nm in GapPuzzles.list_puzzles():
+        if ck.enough():
+            break
+        want_d = gp._parse_gap_file(open(os.path.join(defaults_dir, nm + ".gap"), encoding="utf-8").read())  # pylint: disable=protected-access
+        for closed in (False, True):
+            got = GapPuzzles.puzzle(nm, make_inverse_closed=closed)
+            k = len(want_d.generators_permutations)
+            ok = got.generators_permutations[:k] == want_d.generators_permutations and list(got.generator_names)[:k] == list(want_d.generator_names) \
+                and list(got.central_state) == list(want_d.central_state) and (closed or len(got.generators_permutations) == k)
+            ck.evaluations += 1
+            if not ok:
+                ck.violation("C16/gap/puzzle-differs", f"GapPuzzles.puzzle({nm!r}, make_inverse_closed={closed}) is not the shipped default definition", {"case": {"source": nm}})
+    # the same file name in two directories with different contents, loaded one after the other
+    import tempfile
+
+    with tempfile.TemporaryDirectory() as td:
+        for _ in range(6):
+            stem = rng.choice(["p", "pyraminx", "x y", "cube"])
+            texts = []
+            for sub in ("a", "b"):
+                n = rng.randint(3, 9)
+                g = graphs.rand_perm(rng, n)
+                if g[n - 1] == n - 1:
+                    g = list(range(1, n)) + [0]
+                os.makedirs(os.path.join(td, sub), exist_ok=True)
+                txt = write_gap(rng, [g], ["A"], None)
+                open(os.path.join(td, sub, stem + ".gap"), "w", encoding="utf-8").write(txt)
+                texts.append(txt)
+            for sub, txt in zip(("a", "b"), texts):
+                got = GapPuzzles.load_puzzle_from_file(os.path.join(td, sub, stem + ".gap"))
+                want_d = gp._parse_gap_file(txt)  # pylint: disable=protected-access
+                ck.evaluations += 1
+                ck.count("gap:same-name-two-directories")
+                if not same_def(got, want_d):
+                    ck.violation("C16/gap/load-differs", "two files of the same name in different directories: the second load returns the first file's definition", {"case": {"source": "synthetic", "texts": texts, "stem": stem}})
     # synthetic texts from arbitrary permutation sets and identical-piece partitions
     for _ in range(300 if not ck.thorough else 5000):
         if ck.enough():
